@@ -704,6 +704,12 @@ end
 
 def bodyPartIndex (d : Document) : Nat := (partSels d).idxOf PartSel.body
 
+/-- part index of the story the range's first real span lies in (the main document when there is none) -/
+def storyOfRange (s : Sess) (spans : List OSpan) (start stop : Nat) : Nat :=
+  match (contextSpan spans start stop).bind (·.sp.run) with
+  | some r => r.para.head?.getD (bodyPartIndex s.doc)
+  | none => bodyPartIndex s.doc
+
 def opOf (op : Option EOp) (len : Nat) (newText : Str) : EOp :=
   match op with
   | some o => o
@@ -724,16 +730,46 @@ def nextRun (ns : List Node) (loc : Loc) : Option Run :=
 
 def endsWithSpace (t : Str) : Bool := t.getLast? = some ' '
 
-/-- the edit lands inside a pending insertion: reject that insertion, insert the new text in its place -/
-def nestedReplace (s : Sess) (insId : Str) (newText : Str) (comment : Option Str) : Sess × Bool :=
-  match findInsBlocks insId s.doc.body 0 with
+def hasBreak (t : Str) : Bool := t.any fun c => c = '\n' || c = '\r'
+
+/-- `re.split(r"[\r\n]", text)`: one piece per line break (consecutive breaks give empty pieces) -/
+def splitBreaks (t : Str) : List Str :=
+  let rec go (cur : Str) : Str → List Str
+    | [] => [cur.reverse]
+    | c :: r => if c = '\n' || c = '\r' then cur.reverse :: go [] r else go (c :: cur) r
+  go [] t
+
+/-- `_track_insert_inline_lines`: children of one inline `w:ins` for a text with line breaks (a `w:br` run per break) -/
+def inlineLines (text : Str) (style : Option Run) : List InsChild :=
+  (splitBreaks text).zipIdx.flatMap fun (line, i) =>
+    (if i = 0 then [] else [InsChild.run { applyRunProps style ⟨[], false, false⟩ false with ch := [.br] }]) ++
+      insRuns line style false
+
+/-- what replaces a rewritten insertion: a text with line breaks stays one inline insertion (breaks as `w:br`),
+otherwise `track_insert` with the (detached) style source -/
+def nestedIns (s : Sess) (text : Str) (style : Option Run) (comment : Option Str) : Sess × Option Node × List Block :=
+  if hasBreak text then (s.newRev.1, some (Node.ins s.newRev.2 (inlineLines text style)), [])
+  else trackInsert s text style false default comment false
+
+/-- the text of the insertion `insId` with the range `[start, start+len)` replaced by `newText` -/
+def nestedText (spans : List OSpan) (start len : Nat) (insId newText : Str) : Str :=
+  let insSp := spans.filter fun o => o.sp.insId == some insId
+  let full := insSp.flatMap (·.sp.text)
+  let rel := match insSp.head? with | some o => start - o.start | none => 0
+  full.take rel ++ newText ++ full.drop (rel + len)
+
+/-- the edit lands inside a pending insertion: reject that insertion, insert its text - with the range replaced -
+in its place.  The insertion is looked up - and rejected - in the story `pi` the range lies in (revision ids are
+unique per part only) -/
+def nestedReplace (s : Sess) (pi : Nat) (insId : Str) (newText : Str) (comment : Option Str) : Sess × Bool :=
+  match findInsBlocks insId ((docParts s.doc)[pi]?.getD []) 0 with
   | none => (s, false)
   | some (path, idx, style) =>
-    let pp := bodyPartIndex s.doc :: path
-    let s1 := { s with doc := { s.doc with body := (rejectChange insId s.doc.body).1 } }
+    let pp := pi :: path
+    let s1 := { s with doc := modPart s.doc pi fun bs => (rejectChange insId bs).1 }
     if newText.isEmpty then (s1, true)
     else
-      let (s2, ins, _) := trackInsert s1 newText style false default comment false
+      let (s2, ins, _) := nestedIns s1 newText style comment
       match ins with
       | none => (s2, true)
       | some insNode =>
@@ -926,7 +962,8 @@ def applyIndexed (s : Sess) (clean : Bool) (start len : Nat) (newText : Str) (co
   else
     let ctxIns := if len > 0 then insertionEnclosing spans start (start + len) else none
     match ctxIns with
-    | some id => nestedReplace s id newText comment
+    | some id =>
+      nestedReplace s (storyOfRange s spans start (start + len)) id (nestedText spans start len id newText) comment
     | none =>
       match op with
       | .insertion => applyInsertion s spans start newText comment
